@@ -26,7 +26,8 @@ RULE += (
     "for the same call - at once or after a flush - while the body is suspended and must be handed the "
     "in-flight task. A separate unit applies ONE deduplicate() object to four functions with different "
     "signatures in all 24 decoration orders: equivalent spellings share a task, look-alike different calls do "
-    "not."
+    "not. One unit uses deduplicated functions without named parameters (def f(*ids), def f(**opts)): the "
+    "arguments still are the key, dirty() of another key changes nothing."
 )
 ASSUMPTIONS = [
     "calls issued while the in-flight task's own step is on the Python stack are unconstrained by the statement and leave the model unchanged",
